@@ -441,7 +441,19 @@ func (x *Exec) doFixedPoint(op Op) error {
 			if i == 1 {
 				class = "third-run-changes-something"
 			}
-			x.violate("C04", "D4", class, d, map[string]string{"gens": genNames(r.Gens)})
+			// discriminators for known findings: which generator's file moved, and whether its package
+			// depends on other packages of the module (whose API the first run has just extended)
+			facts := map[string]string{"gens": genNames(r.Gens), "changed_gen": "", "pkg_has_local_imports": "false"}
+			bn := filepath.Base(p)
+			if strings.HasPrefix(bn, r.Args.Base+".") && strings.HasSuffix(bn, ".go") {
+				facts["changed_gen"] = strings.TrimSuffix(strings.TrimPrefix(bn, r.Args.Base+"."), ".go")
+			}
+			for _, ps := range x.Sc.Module.Pkgs {
+				if filepath.Clean(ps.Dir) == filepath.Clean(filepath.Dir(p)) && len(ps.Imports) > 0 {
+					facts["pkg_has_local_imports"] = "true"
+				}
+			}
+			x.violate("C04", "D4", class, d, facts)
 			return nil
 		}
 	}
